@@ -186,6 +186,17 @@ class ModelBackend(Backend):
     def set_now(self, t, micro=0):
         self.world.now, self.world.now_micro = t, micro
 
+    def current_now(self):
+        return self.world.now
+
+    @property
+    def tick(self):
+        return self._tick
+
+    @tick.setter
+    def tick(self, v):
+        self._tick = v
+
     # ---- queries
     def exists(self, rel):
         return self.p(rel) in self.world.nodes
@@ -459,6 +470,27 @@ def real_decode(fmt, digest: str) -> bytes:
     return c4_decode(digest) if fmt == "c4" else bytes.fromhex(digest)
 
 
+_AUDIT = {"on": False, "ops": [], "root": None, "installed": False}
+
+
+def _audit_hook(event, args):
+    if not _AUDIT["on"]:
+        return
+    try:
+        if event == "open":
+            path, mode, flags = args
+            if isinstance(path, str) and isinstance(flags, int) and flags & (os.O_WRONLY | os.O_RDWR | os.O_CREAT | os.O_TRUNC | os.O_APPEND):
+                _AUDIT["ops"].append(("open_w", os.path.abspath(path)))
+        elif event in ("os.mkdir", "os.remove", "os.rmdir", "os.truncate", "os.chmod", "os.utime", "os.chown", "os.link", "os.symlink"):
+            _AUDIT["ops"].append((event[3:], os.path.abspath(str(args[0]))))
+        elif event in ("os.rename", "shutil.move", "shutil.copyfile"):
+            _AUDIT["ops"].append(("replace", os.path.abspath(str(args[0])), os.path.abspath(str(args[1]))))
+        elif event == "shutil.rmtree":
+            _AUDIT["ops"].append(("remove", os.path.abspath(str(args[0]))))
+    except Exception:
+        pass
+
+
 class RealBackend(Backend):
     real = True
 
@@ -522,6 +554,9 @@ class RealBackend(Backend):
 
     def set_now(self, t, micro=0):
         self.now, self.now_micro = t, micro
+
+    def current_now(self):
+        return self.now
 
     # ---- queries
     def exists(self, rel):
@@ -753,13 +788,22 @@ class RealBackend(Backend):
             out.pop()
         if err and err[-1] == "":
             err.pop()
-        return Result(res.exit_code, exc, out, err, None, res.exception)
+        return Result(res.exit_code, exc, out, err, list(self.last_ops), res.exception)
 
     def _invoke(self, runner, cli, argv):
-        if self.perm is not None:
-            with self.perm:
-                return runner.invoke(cli, argv)
-        return runner.invoke(cli, argv)
+        if not _AUDIT["installed"]:
+            sys.addaudithook(_audit_hook)
+            _AUDIT["installed"] = True
+        _AUDIT["ops"] = []
+        _AUDIT["on"] = True
+        try:
+            if self.perm is not None:
+                with self.perm:
+                    return runner.invoke(cli, argv)
+            return runner.invoke(cli, argv)
+        finally:
+            _AUDIT["on"] = False
+            self.last_ops = [o for o in _AUDIT["ops"] if any(isinstance(x, str) and x.startswith(self.tmp) for x in o[1:])]
 
 
 _EXC_CODES = None
